@@ -29,6 +29,13 @@ Kinds of case (field "kind"):
   file     BED file -> bnp.open().read_chunks(min_chunk_size=k) for every k -> groupby / mean / pileup / chunk-wise filter
            (leaves empty chunks) followed by chunk_lines / chunk_entries
   histauto bnp.histogram with data-dependent edges (bins=int, no range) - literal reading of the statement
+  nd       the reductions on 1-D chunks and on 2-D chunks of fixed-width rows (1..5 columns) with axis None, 0 and -1: bnp.mean
+           (ints, floats), a user @streamable(sum) of np.sum, bnp.histogram, and np.mean / np.sum / np.histogram of a StreamNode
+           evaluated with compute; the in-memory value is numpy's on the concatenated array (signatures reduce:nd:<fn>:<1d|2d>:axis<a>)
+  stranded values of a streamed track (get_track(stream)) or pileup under STRANDED windows whose strands are drawn from all three
+           legal symbols '+', '-', '.' (every assignment for small n), windows streamed with their own chunking or in memory,
+           track values that are no palindromes under any window; rows and mean(axis=0); the direction of a '.' window is the
+           one the in-memory pipeline uses (signatures genomic:stranded-windows:...)
 """
 import itertools
 import os
@@ -983,6 +990,287 @@ def gen_genomic(tier, rng):
 
 
 # ----------------------------------------------------------------------------------------------------------------------
+# kind "nd": the streamable reductions on 1-D chunks and on 2-D chunks (fixed-width rows, 1..5 columns) with axis None, 0
+# and -1.  The in-memory value is what numpy gives for the concatenated array: axis None -> one number; axis 0 -> one
+# number (1-D) / one per column (2-D); axis -1 -> one number (1-D) / one per row (2-D).
+# ----------------------------------------------------------------------------------------------------------------------
+ND_FNS = ("mean", "mean:float", "user:sum", "histogram", "graph:mean", "graph:sum", "graph:histogram")
+ND_WIDTHS = {"quick": (None, 1, 2, 5), "thorough": (None, 1, 2, 3, 5)}     # None = 1-D chunks
+ND_NMAX = {"quick": 6, "thorough": 7}
+
+
+def nd_rows(n, width, floats=False):
+    """n entries: numbers (width None) or rows of `width` numbers; no two columns / rows alike"""
+    vals = values(n, "mix")
+    conv = (lambda v: v * 0.25 - 1.0) if floats else (lambda v: v)
+    if width is None:
+        return [conv(v) for v in vals]
+    return [[conv((v * (j + 2) + 3 * j + i) % 7) for j in range(width)] for i, v in enumerate(vals)]
+
+
+def model_axis(rows, width, axis, f):
+    """f (sum or mean of a list) of the concatenated data over `axis`, as a flat list of numbers"""
+    if width is None:
+        return [f(rows)]                                        # 1-D: every axis reduces the only axis
+    if axis is None:
+        return [f([e for r in rows for e in r])]
+    if axis == 0:
+        return [f([r[j] for r in rows]) for j in range(width)]
+    return [f(r) for r in rows]                                 # axis -1: one value per row
+
+
+def check_nd(col, case):
+    import numpy as np
+    import bionumpy as bnp
+    from bionumpy.streams import BnpStream
+    from bionumpy.computation_graph import StreamNode, compute
+    fn, n, width, axis, cuts = case["fn"], case["n"], case["width"], case["axis"], case["cuts"]
+    rows = nd_rows(n, width, floats=fn == "mean:float")
+    sig = "reduce:nd:%s:%s:axis%s" % (fn.replace(":float", ""), "1d" if width is None else "2d", axis)
+    col.case(case, contract="streamed %s(axis=%s) on %s chunks == in-memory" % (fn, axis, "1-d" if width is None else "2-d"))
+    x = np.array(rows)
+    mean = lambda v: sum(v) / len(v)
+
+    def out(r):
+        """value of a reduction, or the concatenated chunks of a stream of per-chunk results"""
+        if isinstance(r, BnpStream) or hasattr(r, "__next__"):
+            return [e for c in r for e in flat(c)]
+        return flat(r)
+
+    def run():
+        stream = BnpStream(iter(pieces(x, cuts)))
+        if fn in ("mean", "mean:float"):
+            return out(bnp.mean(stream, axis=axis)), model_axis(rows, width, axis, mean)
+        if fn == "user:sum":
+            f = bnp.streamable(sum)(lambda a, axis=None: np.sum(a, axis=axis))
+            return out(f(stream, axis=axis)), model_axis(rows, width, axis, sum)
+        allv = rows if width is None else [e for r in rows for e in r]
+        if fn == "histogram":
+            h = bnp.histogram(stream, bins=3, range=(0, 6))
+            return flat(h[0]) + flat(h[1]), model_histogram(allv, [0, 2, 4, 6]) + [0, 2, 4, 6]
+        node = StreamNode(iter(pieces(x, cuts)))
+        if fn == "graph:mean":
+            return out(compute(np.mean(node, axis=axis))), model_axis(rows, width, axis, mean)
+        if fn == "graph:sum":
+            return out(compute(np.sum(node, axis=axis))), model_axis(rows, width, axis, sum)
+        if fn == "graph:histogram":
+            h = compute(np.histogram(node, bins=3, range=(0, 6)))
+            return flat(h[0]) + flat(h[1]), model_histogram(allv, [0, 2, 4, 6]) + [0, 2, 4, 6]
+        raise ValueError(fn)
+
+    # an exception and a wrong value are the same defect class here (e.g. per-chunk results of different length are
+    # added: wrong when the chunks have equal length, an exception otherwise): one signature per (function, ndim, axis)
+    try:
+        got, exp = run()
+    except Exception as e:
+        col.check(False, sig + ":differs-from-in-memory", case, "raised %s: %s" % (type(e).__name__, str(e)[-300:]))
+        return
+    col.check(close(got, exp), sig + ":differs-from-in-memory", case, "got %r expected %r" % (got, exp))
+
+
+def gen_nd(tier, rng):
+    for n in range(1, ND_NMAX[tier] + 1):
+        for cuts in all_cuts(n):
+            for width in ND_WIDTHS[tier]:
+                for fn in ND_FNS:
+                    if fn.endswith("histogram"):
+                        axes = (None,)                      # np.histogram has no axis: the chunks are flattened
+                    elif fn == "user:sum":
+                        axes = (None, 0)                    # a sum over the last axis of rows is not a reduction of the stream
+                    else:
+                        axes = (None, 0, -1)
+                    for axis in axes:
+                        yield {"kind": "nd", "fn": fn, "n": n, "width": width, "axis": axis, "cuts": cuts}
+
+
+# ----------------------------------------------------------------------------------------------------------------------
+# kind "stranded": values of a streamed track / pileup under STRANDED windows whose strands are drawn from all three
+# legal strand symbols '+', '-' and '.'; rows and mean(axis=0).  Track values are chosen so that no window is a palindrome.
+# ----------------------------------------------------------------------------------------------------------------------
+# bedgraph rows per chromosome (sorted, non-overlapping, with gaps): every window of IV_POOL and every width-3 window at
+# WIN_START reads values that differ from their reverse when all four rows are present
+TR_POOL = {"chr1": [(0, 2, 1), (2, 3, 5), (4, 7, 2), (7, 10, 3)], "chr2": [(0, 2, 3), (2, 3, 1), (5, 6, 2), (6, 8, 5)],
+           "chr3": [(0, 1, 2), (2, 3, 1), (3, 5, 3), (5, 6, 4)], "chr4": [(0, 2, 1), (2, 3, 2), (4, 6, 4), (6, 7, 7)]}
+STRAND_SYMBOLS = "+-."
+STRANDED_OPS = ("rows", "mean")
+_STRANDED_REF = {}
+
+
+def strand_patterns(n, everything):
+    """strand assignments of n windows: all 3^n (small n), else the three rotations of '+-.' and of '.-+', all '.',
+    and '.' at each single position among alternating '+'/'-' """
+    if everything:
+        return ["".join(p) for p in itertools.product(STRAND_SYMBOLS, repeat=n)]
+    out = ["".join("+-."[(i + r) % 3] for i in range(n)) for r in range(3)]
+    out += ["".join(".-+"[(i + r) % 3] for i in range(n)) for r in range(3)]
+    out += ["." * n]
+    out += ["".join("." if i == p else "+-"[(i + p) % 2] for i in range(n)) for p in range(n)]
+    return list(dict.fromkeys(out))
+
+
+def stranded_windows(counts, op):
+    rows = []
+    for (name, _), c in zip(CHROMS, counts):
+        for j in range(c):
+            rows.append((name,) + (IV_POOL[name][j] if op == "rows" else (WIN_START[name][j], WIN_START[name][j] + 3)))
+    return rows
+
+
+def stranded_source_rows(tcounts, source):
+    pool = TR_POOL if source == "track" else IV_POOL
+    return [(name,) + tuple(pool[name][j]) for (name, _), c in zip(CHROMS, tcounts) for j in range(c)]
+
+
+def check_stranded(col, case):
+    import numpy as np
+    import bionumpy as bnp
+    from bionumpy.streams import NpDataclassStream
+    from bionumpy.datatypes import Interval, Bed6, BedGraph
+    from bionumpy.computation_graph import compute
+    counts, tcounts, strands, op, source = case["counts"], case["tcounts"], case["strands"], case["op"], case["source"]
+    cuts, cuts2 = case["cuts"], case["cuts2"]
+    sizes = CHROMS[:len(counts)]
+    if len(counts) not in _GENOMES:
+        _GENOMES[len(counts)] = bnp.Genome.from_dict(dict(sizes))
+    genome = _GENOMES[len(counts)]
+    wins = stranded_windows(counts, op)
+    src = stranded_source_rows(tcounts, source)
+    sig = "genomic:stranded-windows:%s:%s" % (source, op)
+    col.case(case, contract="compute(streamed %s[stranded windows with strands +, -, .]%s) == in-memory"
+                            % (source, ".mean(axis=0)" if op == "mean" else ""))
+    # per-base model of the indexed array
+    if source == "track":
+        dense = {name: [0] * size for name, size in sizes}
+        for c, s, e, v in src:
+            dense[c][s:e] = [v] * (e - s)
+    else:
+        dense = model_pileup(src, sizes)
+
+    def rows_of(r):
+        return [np.asarray(x.to_array() if hasattr(x, "to_array") else x).tolist() for x in r]
+
+    def full_source():
+        if source == "track":
+            return BedGraph([r[0] for r in src], [r[1] for r in src], [r[2] for r in src], [r[3] for r in src])
+        return Interval([r[0] for r in src], [r[1] for r in src], [r[2] for r in src])
+
+    def array_of(data):
+        return genome.get_track(data) if source == "track" else genome.get_intervals(data).get_pileup()
+
+    full_w = Bed6([r[0] for r in wins], [r[1] for r in wins], [r[2] for r in wins], ["w%d" % i for i in range(len(wins))],
+                  [0] * len(wins), list(strands))
+
+    def run():
+        # the in-memory computation (no stream anywhere): it decides the direction of the '.' windows - the property is
+        # "streamed == in-memory"; the rows of '+' and '-' windows come from the per-base model
+        key = (source, op, tuple(counts), tuple(tcounts), strands)
+        if key not in _STRANDED_REF:
+            if len(_STRANDED_REF) > 5000:
+                _STRANDED_REF.clear()
+            _STRANDED_REF[key] = rows_of(array_of(full_source())[genome.get_intervals(full_w, stranded=True)])
+        mem = _STRANDED_REF[key]
+        exp = []
+        for (c, s, e), st, m in zip(wins, strands, mem):
+            base = dense[c][s:e]
+            if st == ".":
+                if m != base and m != base[::-1]:
+                    return "in-memory", m, base, None
+                exp.append(m)
+            else:
+                exp.append(base if st == "+" else base[::-1])
+        ctype = BedGraph if source == "track" else Interval
+        arr = array_of(NpDataclassStream((p for p in pieces(full_source(), cuts)), dataclass=ctype))
+        if cuts2 is None:
+            w = genome.get_intervals(full_w, stranded=True)          # windows in memory, array streamed
+        else:
+            w = genome.get_intervals(NpDataclassStream((p for p in pieces(full_w, cuts2)), dataclass=Bed6), stranded=True)
+        if op == "rows":
+            return "rows", rows_of(compute(arr[w])), exp, exp
+        return "mean", flat(compute(arr[w].mean(axis=0))), [sum(r[j] for r in exp) / len(exp) for j in range(3)], exp
+
+    r = col.guarded(run, sig, case)
+    if r is None:
+        return
+    what, got, exp, exp_rows = r
+    if what == "in-memory":
+        col.check(False, sig + ":in-memory-row-of-dot-strand-window-is-neither-the-values-nor-their-reverse", case,
+                  "in-memory row %r, values under the window %r" % (got, exp))
+        return
+    if close(got, exp) if what == "mean" else got == exp:
+        col.check(True, sig + ":differs-from-in-memory", case)
+        return
+    # own signature when exactly the '.' windows are at fault (streamed and in-memory path treat strand '.' differently)
+    if what == "rows":
+        only_dot = len(got) == len(exp) and all(g == e or st == "." for g, e, st in zip(got, exp, strands))
+    else:
+        flipped = [r[::-1] if st == "." else r for r, st in zip(exp_rows, strands)]
+        only_dot = close(got, [sum(r[j] for r in flipped) / len(flipped) for j in range(3)])
+    col.check(False, sig + (":dot-strand-windows-differ-from-in-memory" if only_dot else ":differs-from-in-memory"), case,
+              "strands %r got %r expected %r" % (strands, got, exp))
+
+
+def stranded_bounds(tier):
+    """(max windows per chromosome, {number of chromosomes: max number of windows}, largest n with all 3^n strand assignments
+    {number of chromosomes: n})"""
+    if tier == "quick":
+        return 2, {1: 2, 2: 4, 3: 3, 4: 2}, {1: 2, 2: 2, 3: 1, 4: 1}
+    return 3, {1: 3, 2: 4, 3: 4, 4: 3}, {1: 3, 2: 3, 3: 2, 4: 1}
+
+
+def source_cuts(tcounts):
+    """chunkings of the indexed array's own stream: one chunk, one entry per chunk, cuts at the chromosome borders, one
+    entry after each border (inside a chromosome), every second entry"""
+    nt = sum(tcounts)
+    borders = list(itertools.accumulate(tcounts))[:-1]
+    out = [[], list(range(1, nt)), borders, [b + 1 for b in borders], list(range(2, nt, 2))]
+    res = []
+    for c in out:
+        c = sorted({k for k in c if 0 < k < nt})
+        if c not in res:
+            res.append(c)
+    return res
+
+
+def gen_stranded(tier, rng):
+    quick = tier == "quick"
+    maxper, nmax, allmax = stranded_bounds(tier)
+    i = 0
+    for nchrom in (1, 2, 3, 4):
+        # beyond the bound on n: one dataset with windows on every chromosome
+        extra = {3: [[1, 1, 2]], 4: [[1, 1, 1, 1]]}.get(nchrom, [])
+        for counts in [list(c) for c in itertools.product(range(maxper + 1), repeat=nchrom)]:
+            n = sum(counts)
+            if n == 0 or (n > nmax[nchrom] and counts not in extra):
+                continue
+            # the source stream: all four bedgraph rows (three reads) per chromosome; also sources with chromosomes that have
+            # no / one entry
+            tfull = [4] * nchrom
+            tvariants = [tfull, [(4, 0, 1, 2)[(k + 1) % 4] for k in range(nchrom)], [(1, 4, 0, 3)[k % 4] for k in range(nchrom)]]
+            tvariants = [t for k, t in enumerate(tvariants) if sum(t) and t not in tvariants[:k]]
+            # the windows' chunking: in memory (None) and every cutting for n <= 3, else in memory + five structured ones
+            c2s = [None] + (list(all_cuts(n)) if n <= 3 else source_cuts(counts))
+            pats = strand_patterns(n, n <= allmax[nchrom])
+            # pattern lists (n above the all-assignments bound) on 3 and 4 chromosomes and for n = 4 (thorough: 4 chromosomes,
+            # and 3 with n = 4): a third of the list per chunking, rotating
+            thin = n > allmax[nchrom] and (nchrom >= (3 if quick else 4) or (n >= 4 and (quick or nchrom == 3)))
+            for ci, c2 in enumerate(c2s):
+                for pi, strands in enumerate(pats):
+                    if thin and (pi + ci) % 3:
+                        continue
+                    i += 1
+                    # quick: rows and mean alternate; every third pair reads a pileup instead of a track; every fifth case has
+                    # a source with empty / one-entry chromosomes; the source's chunking rotates
+                    for op in ([STRANDED_OPS[i % 2]] if quick else STRANDED_OPS):
+                        source = "pileup" if (i // 2) % 3 == 2 else "track"
+                        tc = tvariants[(i // 5) % len(tvariants)] if i % 5 == 0 else tfull
+                        if source == "pileup":
+                            tc = [min(t, 3) for t in tc]
+                        scs = source_cuts(tc)
+                        yield {"kind": "stranded", "op": op, "source": source, "counts": counts, "tcounts": tc,
+                               "strands": strands, "cuts": scs[i % len(scs)], "cuts2": c2}
+
+
+# ----------------------------------------------------------------------------------------------------------------------
 # kind "file": chunks made by the file reader (every min_chunk_size)
 # ----------------------------------------------------------------------------------------------------------------------
 def check_file(col, case, tmp):
@@ -1047,9 +1335,10 @@ def gen_file(tier, rng):
 # ----------------------------------------------------------------------------------------------------------------------
 CHECKS = {"bigcount": check_bigcount, "reduce": check_reduce, "histauto": check_histauto, "kmers": check_kmers, "groupby": check_groupby,
           "rechunk": check_rechunk, "graph": check_graph, "genomic": check_genomic,
-          "chrommap": check_chrommap}
+          "chrommap": check_chrommap, "nd": check_nd, "stranded": check_stranded}
 GENS = [("rechunk", gen_rechunk), ("bigcount", gen_bigcount), ("winmean", gen_winmean), ("reduce", gen_reduce), ("histauto", gen_histauto), ("graph", gen_graph),
-        ("kmers", gen_kmers), ("groupby", gen_groupby), ("chrommap", gen_chrommap), ("genomic", gen_genomic), ("file", gen_file)]
+        ("kmers", gen_kmers), ("groupby", gen_groupby), ("chrommap", gen_chrommap), ("genomic", gen_genomic), ("file", gen_file),
+        ("nd", gen_nd), ("stranded", gen_stranded)]
 
 def run_case(col, case, tmp):
     if case["kind"] == "file":
@@ -1063,7 +1352,8 @@ def run(tier="quick", seed=0):
                     "exhaustive: dataset of n entries x all 2^(n-1) cuts into consecutive non-empty chunks x every listed computation "
                     "(reductions, k-mer counts, group-by over every composition of n into groups, re-chunking for every n_entries "
                     "incl. incoming streams with empty chunks at every position, symbol/k-mer counts of chunks above the 1,000,000 block size, "
-                    "mean over windows of unequal length, "
+                    "mean over windows of unequal length, reductions on 1-d and 2-d chunks with axis None/0/-1, stranded windows with "
+                    "strands from {+,-,.} over streamed tracks / pileups, "
                     "computation-graph expressions, per-chromosome pipelines on genomes of 1..4 chromosomes with every "
                     "per-chromosome entry count, reader-made chunks for every min_chunk_size); seeded cut sets above the bound; "
                     "distinct = distinct (kind, computation, dataset, cut set); non-trivial = all (n=1 / one chunk are the base cases)",
@@ -1095,6 +1385,17 @@ def run(tier="quick", seed=0):
                                              "complementary (4 chromosomes: complementary only); longest window shorter on one chromosome: %d datasets"
                                              % (winmean_bounds(tier)[0], winmean_bounds(tier)[1], sorted(WIDTH_SETS), 3 if quick else 6),
         "graph n": "1..%d" % nm["graph"], "graph ops": list(GRAPH_OPS),
+        "nd reductions": "n 1..%d x all cuts x chunk shapes %s (None = 1-d, else rows of that many columns) x %s x axis None, 0, -1 "
+                         "(histogram: no axis; user sum: None, 0)" % (ND_NMAX[tier], list(ND_WIDTHS[tier]), list(ND_FNS)),
+        "stranded windows": "1..4 chromosomes, 0..%d windows per chromosome, n <= %s; strands: all 3^n assignments over '+-.' for n <= %s "
+                            "(by number of chromosomes; one larger dataset on 3 and 4 chromosomes), else rotations of '+-.' / '.-+', all '.', "
+                            "one '.' at each position%s; windows in "
+                            "memory or streamed (all cuts for n <= 3, else 5 structured); source track (4 bedgraph rows per chromosome) "
+                            "or pileup (3 reads), also with chromosomes without / with one source entry, source chunking one of 5 "
+                            "structured cut sets (rotating); ops rows / mean(axis=0)%s"
+                            % (stranded_bounds(tier)[0], stranded_bounds(tier)[1], stranded_bounds(tier)[2],
+                               " (%s: a third of them per chunking)" % ("3-4 chromosomes, n = 4" if quick else "4 chromosomes, 3 with n = 4"),
+                               " alternating" if quick else ""),
         "genomic": "1..4 chromosomes, 0..%d entries per chromosome, n <= %s (by number of chromosomes); second stream: all cuts "
                    "for n<=3, else same + complementary cut set (quick: two-stream ops on 4 chromosomes only for n<=3); n=10 x 2 datasets x %s"
                    % (maxper, gmax, "10 sampled cuts" if quick else "all 512 cuts"),
